@@ -80,6 +80,7 @@ def run(rep, tier):
         scratch(rep, c, sfx)
         boundary(rep, c, sfx)
         advance(rep, c, sfx)
+        frame(rep, c, sfx)
         strlen_rule(rep, c, sfx)
         narrow(rep, c, sfx)
         popalways(rep, c, sfx)
@@ -1373,6 +1374,97 @@ def order_test(y):
                      ">": {True: "fwd", False: "rev-or-eq"}, ">=": {True: "fwd-or-eq", False: "rev"}}
             return (hirq.local_id(l["base"]), table[op])
     return None
+
+
+def frame(rep, c, sfx):
+    r = rep.rule("C03.FRAME" + sfx, 3,
+                 "an offset found by searching the rest of the input (`..[self.pos..]`: memchr / memmem / find) is relative "
+                 "to the cursor and is ADDED to it; an index that runs over `self.pos..len` is absolute and is ASSIGNED.  "
+                 "The frame of each such local is read off its source and off its other uses in the same function "
+                 "(`self.pos + from`, `input.get(from..)`); a write to `pos` that treats it the other way contradicts them "
+                 "and moves the cursor backwards or past the match")
+    n = 0
+    for b in c.bodies:
+        if b.get("body") is None or b.get("exp") or "::tests::" in str(b.get("path", "")):
+            continue
+        writes = []
+        for x in walk(b["body"]):
+            if kind(x) in ("Assign", "AssignOp"):
+                tgt = peel(x["l"])
+                if kind(tgt) == "Field" and tgt["name"] == "pos" and "position::Position" in str(tgt.get("bty", "")) \
+                        and kind(peel(x["r"])) == "Path" and peel(x["r"]).get("res") == "local":
+                    writes.append(x)
+        if not writes:
+            continue
+        lets = hirq.lets(b["body"])
+
+        def is_pos(e):
+            e = peel(e)
+            return kind(e) == "Field" and e["name"] == "pos" and "position::Position" in str(e.get("bty", ""))
+
+        def source_exprs(lid, depth=0, seen=None):
+            seen = seen if seen is not None else set()
+            if depth > 4 or lid in seen:
+                return []
+            seen.add(lid)
+            src = lets[lid][0] if lid in lets else hirq.binding_source(b, lid)
+            if src is None:
+                return []
+            out = [src]
+            for y in walk(src):
+                if kind(y) == "Path" and y.get("res") == "local" and y["id"] != lid:
+                    out += source_exprs(y["id"], depth + 1, seen)
+            return out
+
+        def frame_of(lid):
+            rel = ab = False
+            why = []
+            for src in source_exprs(lid):
+                inside_index = set()
+                for y in walk(src):
+                    if kind(y) == "Index":
+                        idx = peel(y["idx"])
+                        if kind(idx) == "Struct" and str(idx.get("path", "")).endswith("RangeFrom") and any(
+                                is_pos(f["e"]) for f in idx["fields"]):
+                            rel = True
+                            why.append("searched in `%s`" % hirq.expr_text(y)[:40])
+                        for z in walk(y):
+                            inside_index.add(id(z))
+                for y in walk(src):
+                    if kind(y) == "Struct" and str(y.get("path", "")).endswith("ops::range::Range") and id(y) not in inside_index \
+                            and any(f["name"] == "start" and is_pos(f["e"]) for f in y["fields"]):
+                        ab = True
+                        why.append("runs over `%s`" % hirq.expr_text(y)[:40])
+            # the other uses of the local in this function
+            for y in walk(b["body"]):
+                if kind(y) == "Binary" and y["op"] == "+" and ((is_pos(y["l"]) and hirq.local_id(y["r"]) == lid)
+                                                               or (is_pos(y["r"]) and hirq.local_id(y["l"]) == lid)):
+                    rel = True
+                    why.append("used as `%s`" % hirq.expr_text(y)[:40])
+                if kind(y) == "Struct" and str(y.get("path", "")).endswith("RangeFrom") and any(
+                        hirq.local_id(f["e"]) == lid for f in y["fields"]):
+                    ab = True
+                    why.append("used as the start of `%s..`" % hirq.expr_text(y["fields"][0]["e"])[:30])
+            return rel, ab, why
+        for x in writes:
+            lid = hirq.local_id(x["r"])
+            rel, ab, why = frame_of(lid)
+            n += 1
+            key = "%s:%s:%s#%d" % (b["name"], peel(x["r"]).get("name"), "add" if kind(x) == "AssignOp" else "assign",
+                                   writes.index(x))
+            r.instance(key, where(x), "; ".join(why)[:120] or "frame not determined")
+            if rel == ab:
+                continue        # no evidence, or conflicting evidence: no verdict
+            if kind(x) == "Assign" and rel:
+                r.violation(key, where(x), "%s assigns `%s` to the cursor, but it is an offset relative to the cursor (%s): "
+                            "from a position p > 0 the cursor lands at the offset itself - before p, possibly inside a "
+                            "multi-byte character - and the tokens emitted next carry positions that go backwards"
+                            % (b["name"], peel(x["r"]).get("name"), "; ".join(why)[:160]))
+            if kind(x) == "AssignOp" and x.get("op") in ("+=", "+") and ab:
+                r.violation(key, where(x), "%s adds `%s` to the cursor, but it is an absolute index (%s): the cursor moves "
+                            "past the place that was found" % (b["name"], peel(x["r"]).get("name"), "; ".join(why)[:160]))
+    if n == 0:
+        r.lost("writes of a found offset to Position.pos (skip_until and its helpers)")
 
 
 def narrowing_char_casts(body):
